@@ -12,7 +12,7 @@ Tr == TLCEval(ndJsonDeserialize("trace.ndjson"))
 VARIABLES l, bad
 Init == l = 1 /\ bad = {}
 Check(e) ==
-  (IF e.schedule = "sync-status-before-commit" /\ e.feasible /\ e.seen > e.committed
+  (IF e.schedule \in {"sync-status-before-commit", "sync-status-after-failed-commit"} /\ e.feasible /\ e.seen > e.committed
      THEN {<<l, "C18", "a reader saw a synced height that was not committed", e.seen, e.committed>>} ELSE {})
   \cup (IF e.schedule = "load" /\ e.seen > 0
      THEN {<<l, "C18", "under load get-sync-status reported a height above the committed height", e.seen, 0>>} ELSE {})
